@@ -65,6 +65,23 @@ def design(prog, rep):
               f"the abscissa series must be column x_idx of contour.coordinates closed with its own first element, x_idx = 1 iff swap_axis; found {show(x1)[:160]}")
     rep.check(closed(y1, YI), "C17.swap", f"{q}:ordinates", site, "y1 = closed column y_idx",
               f"the ordinate series must be column y_idx of contour.coordinates closed with its own first element, y_idx = 0 iff swap_axis; found {show(y1)[:160]}")
+    def abstract_extrema(t):
+        """min / max of the abscissa (x) and ordinate (y) series -> symbols, whatever the spelling:
+        np.min(series), np.min(coords[:, k]), coords.min(axis=0)[k], np.min(coords, axis=0)[k] (the closing point adds no new value)."""
+        m = {}
+        for s_ in walk(t):
+            for kind, fname in (("min", "numpy.min"), ("max", "numpy.max")):
+                for ax, series, idx in (("x", x1, XI), ("y", y1, YI)):
+                    col = ("col", coords, idx)
+                    forms = [("call", G(fname), (series,), ()), ("call", G(fname), (col,), ()), ("call", G(kind), (series,), ()), ("call", G(kind), (col,), ()),
+                             ("call", ("attr", series, kind), (), ()), ("call", ("attr", col, kind), (), ()),
+                             ("sub", ("call", ("attr", coords, kind), (), (("axis", ("const", 0)),)), idx),
+                             ("sub", ("call", G(fname), (coords,), (("axis", ("const", 0)),)), idx)]
+                    if s_ in forms:
+                        m[s_] = ("sym", kind + ax)
+        from vstat.terms import subst as _subst
+        return _subst(t, m)
+
     # probe
     lp = cfg.enclosing_loops(st)
     okp = False
@@ -77,8 +94,8 @@ def design(prog, rep):
     oky = False
     why = f"probe ordinates must span beyond [min(y1), max(y1)]; found {show(py)[:160]}"
     if py[0] in ("list", "tuple") and len(py[1]) == 2:
-        lo, hi = py[1]
-        mn, mx = ("call", G("numpy.min"), (y1,), ()), ("call", G("numpy.max"), (y1,), ())
+        lo, hi = abstract_extrema(py[1][0]), abstract_extrema(py[1][1])
+        mn, mx = ("sym", "miny"), ("sym", "maxy")
         for c in (0.1, 0.05, 0.2, 0.5, 1.0):
             if algebra.same(lo, ("bin", "-", mn, ("bin", "*", mx, ("const", c)))) and algebra.same(hi, ("bin", "+", mx, ("bin", "*", mx, ("const", c)))):
                 oky = True
@@ -127,7 +144,7 @@ def design(prog, rep):
               f"an assertion bounds the number of intersections ({[ast.unparse(s)[:40] for s in bad]}): a non-convex (star-shaped) contour, or a probe through a vertex, "
               "has more than two crossings and raises AssertionError instead of returning the top ordinate")
     # defaults
-    mnx, mxx = ("call", G("numpy.min"), (x1,), ()), ("call", G("numpy.max"), (x1,), ())
+    mnx, mxx = ("sym", "minx"), ("sym", "maxx")
     spacer = None
     steps_defs = [d for d in b.rd.all_defs("steps") if d.kind == "assign"]
     got = {}
@@ -141,7 +158,7 @@ def design(prog, rep):
     why = "default abscissae not found for steps=None and steps=<int>"
     if ok:
         for kind, bd in got.items():
-            lo, hi = bd.get("start"), bd.get("stop")
+            lo, hi = abstract_extrema(bd.get("start", NONE)), abstract_extrema(bd.get("stop", NONE))
             sp = None
             if lo is not None and lo[0] == "bin" and lo[1] == "+" and algebra.same(lo[2], mnx):
                 sp = lo[3]
